@@ -6,6 +6,7 @@ package main
 import (
 	"fmt"
 	"sort"
+	"strings"
 
 	"github.com/zclconf/go-cty/cty"
 	"github.com/zclconf/go-cty/cty/convert"
@@ -109,11 +110,25 @@ func apply(api string, args []cty.Value, x J) (cty.Value, error) {
 		return cty.UnknownAsNull(args[0]), nil
 	}
 	if len(api) > 3 && api[:3] == "fn:" {
-		f, ok := lookupFunc(api[3:], x)
-		if !ok {
-			panic("harness: no such function " + api)
+		// "fn:f>g": g applied to the result of f (decode after encode)
+		names := strings.Split(api[3:], ">")
+		var v cty.Value
+		for i, n := range names {
+			f, ok := lookupFunc(n, x)
+			if !ok {
+				panic("harness: no such function " + api)
+			}
+			var err error
+			if i == 0 {
+				v, err = f.Call(args)
+			} else {
+				v, err = f.Call([]cty.Value{v})
+			}
+			if err != nil {
+				return v, err
+			}
 		}
-		return f.Call(args)
+		return v, nil
 	}
 	panic("harness: unknown api " + api)
 }
